@@ -557,6 +557,45 @@ def param_dist(a_list, b_list):
     return max((float((a.double() - b.double()).abs().max()) if a.numel() else 0.0) for a, b in zip(a_list, b_list))
 
 
+def lie_kinds(module):
+    """per parameter: 'SE3' / 'SO3' for pose parameters, None for Euclidean ones"""
+    P = pp()
+    out = []
+    for p in module.parameters():
+        if isinstance(p, P.LieTensor) and p.shape[-1] == 7:
+            out.append("SE3")
+        elif isinstance(p, P.LieTensor) and p.shape[-1] == 4:
+            out.append("SO3")
+        else:
+            out.append(None)
+    return out
+
+
+def restore_excess(kinds, before, after, dmag, eps):
+    """largest (difference / allowed round-off) over the parameters after Retr(Retr(p, D), -D).
+    Euclidean: (p + D) - D, 16·eps·(|p| + |D|).  Quaternion part of a pose: 64·eps·(1 + |D|)² (the angle's own rounding).
+    Translation part of an SE3 pose: the accuracy property C01 grants to the translation block of Exp, 4·√eps·scale
+    (the closed-form coefficients (1-cos θ)/θ² cancel for small non-zero angles)."""
+    worst, info = 0.0, ""
+    dm = min(dmag, 1e140)
+    for kd, a, b in zip(kinds, before, after):
+        a, b = a.double(), b.double()
+        if kd == "SE3":
+            parts = [("translation", a[..., :3], b[..., :3], 4 * math.sqrt(eps) * (1.0 + dm + float(a[..., :3].abs().max()))),
+                     ("rotation", a[..., 3:], b[..., 3:], 64 * eps * (1.0 + dm) ** 2)]
+        elif kd == "SO3":
+            parts = [("rotation", a, b, 64 * eps * (1.0 + dm) ** 2)]
+        else:
+            parts = [("euclidean", a, b, 16 * eps * ((float(a.abs().max()) if a.numel() else 0.0) + dm) + 1e-300)]
+        for name, x, y, tol in parts:
+            if not x.numel():
+                continue
+            dist = float((x - y).abs().max())
+            if dist / tol > worst:
+                worst, info = dist / tol, f"{name} part differs by {dist:.3e} (allowed {tol:.3e})"
+    return worst, info
+
+
 def param_mag(a_list):
     return max((float(a.double().abs().max()) if a.numel() else 0.0) for a in a_list)
 
@@ -645,6 +684,7 @@ def run_optimizer_scenario(ctx: Ctx, scn, collect):
     solver.limit = reject + 40
     tl = lambda: true_loss(module, inp, target, kspec)
     lie = scn["family"] in ("so3", "se3", "mixed")
+    kinds = lie_kinds(module)
 
     def fail(what):
         ctx.fail(scn, what)
@@ -793,13 +833,10 @@ def run_optimizer_scenario(ctx: Ctx, scn, collect):
             if t > 0:
                 prev = sol[t - 1]
                 dmag = float(prev["D"].abs().max()) if "D" in prev else 0.0
-                # Euclidean: (p + D) - D; Lie: Exp(-D)·Exp(D)·X, where the angle's own rounding (eps·|D| rad) acts on a
-                # translation of size |D|: eps·|D|²
-                tolp = ((64 * eps * (1.0 + min(dmag + param_mag(sol[t - 1]["params"]), 1e140)) ** 2) if lie else (16 * eps * (param_mag(sol[t - 1]["params"]) + dmag))) + 1e-300
-                dist = param_dist(before, sol[t - 1]["params"])
-                if dist > tolp:
-                    fail(f"restore: after rejected trial {t - 1} the parameters differ from those before the trial by "
-                         f"{dist:.3e} (> {tolp:.3e}, |D|={dmag:.3e}) (call {call})")
+                worst, info = restore_excess(kinds, sol[t - 1]["params"], before, dmag, eps)
+                if worst > 1.0:
+                    fail(f"restore: after rejected trial {t - 1} the parameters differ from those before the trial: {info}, "
+                         f"|D|={dmag:.3e} (call {call})")
                 if ev["opt_loss"] != l0 or ev["opt_last"] != l0:
                     fail(f"restore-loss: after rejected trial {t - 1} optimizer.loss/last = {ev['opt_loss']!r}/{ev['opt_last']!r}, "
                          f"expected the loss before the trial {l0!r} (call {call})")
@@ -1452,8 +1489,8 @@ def run_opt_stream(ctx: Ctx, scns):
 
 def run(ctx: Ctx):
     rng = ctx.rng
-    torch.set_num_threads(max(1, min(4, torch.get_num_threads())))
-    run_upd_stream(ctx, ctx.pick(1500, 20000))
+    torch.set_num_threads(1)      # tiny tensors: threads only add contention on a shared box
+    run_upd_stream(ctx, ctx.pick(1500, 12000))
     run_hist_stream(ctx, ctx.pick(60, 600))
     run_loss_stream(ctx, ctx.pick(80, 800))
     # scripted 1-D: exhaustive endings for every reject (quick: a rotating subset of rejects + all small ones)
@@ -1464,8 +1501,8 @@ def run(ctx: Ctx):
     else:
         scr = script_scenarios(rng, list(range(0, 17)), ["constant", "adaptive", "trust"])
     run_opt_stream(ctx, scr)
-    scns = [gen_scenario(rng, ctx.quick, "lm") for _ in range(ctx.pick(120, 1300))]
-    scns += [gen_scenario(rng, ctx.quick, "gn") for _ in range(ctx.pick(25, 250))]
+    scns = [gen_scenario(rng, ctx.quick, "lm") for _ in range(ctx.pick(120, 900))]
+    scns += [gen_scenario(rng, ctx.quick, "gn") for _ in range(ctx.pick(25, 200))]
     run_opt_stream(ctx, scns)
 
 
